@@ -5023,7 +5023,7 @@ class Entity(object, metaclass=EntityMeta):
             new_vals = {attr: attr.converters[0].dbval2val(dbval, obj) if not attr.reverse else dbval
                               for attr, dbval in avdict.items()}
 
-        for attr, new_val in list(new_vals.items()):
+        for attr in new_vals:  # a row that cannot be accepted must not change anything: check before the first update
             new_dbval = new_dbvals[attr]
             old_dbval = get_dbval(attr, NOT_LOADED)
             bit = obj._bits_except_volatile_[attr]
@@ -5035,6 +5035,10 @@ class Entity(object, metaclass=EntityMeta):
                       'Value of %s.%s for %s was updated outside of current transaction (was: %r, now: %r)'
                       % (obj.__class__.__name__, attr.name, obj, old_dbval, new_dbval))
 
+        for attr, new_val in list(new_vals.items()):
+            new_dbval = new_dbvals[attr]
+            old_dbval = get_dbval(attr, NOT_LOADED)
+            bit = obj._bits_except_volatile_[attr]
             if wbits & bit:  # the attribute was changed in this session: the in-memory state (both sides) stays as is
                 obj._dbvals_[attr] = new_dbval
                 del new_vals[attr]
